@@ -18,6 +18,7 @@ import (
 	"math"
 	"net/url"
 	"os"
+	"strings"
 	"time"
 )
 
@@ -193,6 +194,7 @@ func vfStrIn(s string, list []string) bool {
 	return false
 }
 func vfSymbolic(v interface{}) bool { return false }
+func vfContains(s, sub string) bool { return strings.Contains(s, sub) }
 
 func vfMarshal(v interface{}) []byte {
 	b, err := json.Marshal(v)
